@@ -552,21 +552,35 @@ pub fn parse_output_format(
 
 		let param_id = param_split[0];
 
-		if param_split.len() == 1
-		{
-			params.insert(param_id.to_string(), "".to_string());
-		}
-		else if param_split.len() == 2
-		{
-			params.insert(param_id.to_string(), param_split[1].to_string());
-		}
-		else
+		let previous = {
+			if param_split.len() == 1
+			{
+				params.insert(param_id.to_string(), "".to_string())
+			}
+			else if param_split.len() == 2
+			{
+				params.insert(param_id.to_string(), param_split[1].to_string())
+			}
+			else
+			{
+				report.error(
+					format!(
+						"invalid format argument `{},{}`",
+						format_id,
+						param));
+
+				return Err(());
+			}
+		};
+
+		// Only one of the values would be looked at
+		if previous.is_some()
 		{
 			report.error(
 				format!(
-					"invalid format argument `{},{}`",
+					"duplicate format argument `{},{}`",
 					format_id,
-					param));
+					param_id));
 
 			return Err(());
 		}
